@@ -34,15 +34,15 @@ from simkit.rng import seed_globals  # noqa: E402
 from simkit.world import InvalidScenario, Monitor, Violation, result, run_sim  # noqa: E402
 
 PROPERTY = "C17"
-RUNS = {"quick": 5000, "thorough": 300_000}
-WALL = {"quick": 45, "thorough": 1500}
+RUNS = {"quick": 6000, "thorough": 300_000}
+WALL = {"quick": 50, "thorough": 1500}
 BATCH = {"quick": 25, "thorough": 400}
 SELFTEST_RUNS = 12
 SHRINK_BUDGET_S = {"quick": 20.0, "thorough": 60.0}
 RULE = (
     "each case is one replication scheme (primary-backup ASYNC/SEMI_SYNC/SYNC with 1-4 backups; chain of 2-5 nodes with "
     "CRAQ on/off and reads at every node; 2-4 multi-leader nodes with concurrent writers on different leaders, one of four "
-    "resolvers and periodic anti-entropy; ReplicatedStore with 2-5 replicas and concurrent clients) with 2-45 writes of "
+    "resolvers and periodic anti-entropy; ReplicatedStore with 2-5 replicas and concurrent clients) with 2-60 writes of "
     "unique values over a small key space, per-node store latencies, and a scenario class that fixes the delay/fault model "
     "(reorder: keyed jittered/straggler delays; fifo: constant per-link delay; distinct: every key written once; faulty: "
     "loss and partition windows, only ack/read relations judged; craq-avoid; rs-put / rs-delete); non-trivial = at least one "
@@ -97,6 +97,7 @@ EXPECTED_PROBES = [
     "probe.ml_version_regressed", "probe.ack_after_drop", "probe.write_never_acked_under_fault",
     "fault.partition", "fault.loss", "fault.msgs_dropped_by_loss", "fault.msgs_dropped_by_partition",
     "probe.converged_despite_overtake", "probe.rs_concurrent_same_key",
+    "probe.stale_write_skipped", "probe.ack_reflected_by_later_write",
 ]
 SHRINK_SKIP = ("scheme", "klass", "mode", "resolver", "rcl", "wcl")
 
@@ -168,22 +169,22 @@ def gen(rng: random.Random, tier: str) -> dict:
     scheme = rng.choices(["pb", "chain", "ml", "rs"], weights=[34, 36, 22, 8])[0]
     scale = rng.choice([0.002, 0.01, 0.05])
     sc = {"scheme": scheme, "seed": rng.getrandbits(48), "net_seed": rng.getrandbits(48), "scale": scale}
-    n_writes = rng.choice([2, 3, 4, 6, 8, 12, 16, 24, 32, 45])
+    n_writes = rng.choice([2, 3, 4, 6, 8, 12, 16, 24, 32, 45, 60])
     if scheme == "rs":
         return _gen_rs(rng, sc, n_writes, scale)
 
     if scheme == "pb":
         sc["n"] = rng.randint(1, 4)
         sc["mode"] = rng.choice(["ASYNC", "SEMI_SYNC", "SEMI_SYNC", "SYNC", "SYNC"])
-        klass = rng.choices(["reorder", "fifo", "distinct", "faulty"], weights=[40, 20, 15, 25])[0]
+        klass = rng.choices(["reorder", "fifo", "distinct", "faulty"], weights=[55, 10, 10, 25])[0]
         n_nodes = sc["n"] + 1
     elif scheme == "chain":
         sc["n"] = rng.randint(2, 5)
         sc["craq"] = rng.random() < 0.6
-        opts, w = ["reorder", "fifo", "distinct", "faulty"], [34, 20, 12, 20]
+        opts, w = ["reorder", "fifo", "distinct", "faulty"], [45, 10, 8, 20]
         if sc["craq"]:
             opts.append("craq-avoid")
-            w.append(22)
+            w.append(17)
         klass = rng.choices(opts, weights=w)[0]
         n_nodes = sc["n"]
     else:
@@ -233,6 +234,8 @@ def gen(rng: random.Random, tier: str) -> dict:
         mode = "any"
         if sc["craq"] and klass in ("fifo", "distinct") and rng.random() < 0.7:
             mode = rng.choice(["tail", "none"])
+        elif sc["craq"] and klass == "reorder" and rng.random() < 0.35:
+            mode = rng.choice(["tail", "none"])  # convergence under reordering not masked by the recorded CRAQ read findings
         elif rng.random() < 0.15:
             mode = rng.choice(["tail", "none"])
         sc["reads"] = mode
@@ -257,7 +260,9 @@ def gen(rng: random.Random, tier: str) -> dict:
             fs = gen_faults(rng, n_nodes, horizon, kinds=("partition", "loss", "loss"), max_faults=4, min_len=scale * 0.5)
         sc["faults"] = fs
     if scheme == "ml":
-        sc["ae_interval"] = round(rng.choice([3.0, 6.0, 20.0]) * (dmax + max(sc["wlat"]) + scale * 0.1), 6)
+        # one anti-entropy handler may re-put every key: keep the interval above the duration of a full exchange
+        n_keys = len({o["k"] for o in ops})
+        sc["ae_interval"] = round(rng.choice([3.0, 6.0, 20.0]) * (dmax + (n_keys + 1) * max(sc["wlat"]) + scale * 0.1), 6)
         # phases: 0.0 -> the node's own get_anti_entropy_event() (all timers aligned); else an explicit first AntiEntropy event
         if rng.random() < 0.5:
             sc["ae_phase"] = [0.0] * sc["n"]
@@ -537,6 +542,8 @@ class Ctx:
         forwarded = len(starts) > 1
         if forwarded:
             self.flag("probe.craq_read_forwarded_dirty")
+            if starts[0][2] is False:
+                self.flag("obs.craq_read_forwarded_after_recheck")  # only reachable with the read re-check repair
         if craq and si != tail_i and v is not None:
             self.flag("probe.craq_read_served_clean_nontail")
         # did the read overlap an in-flight write to the key (any node still lacking some already-accepted value)?
@@ -565,7 +572,11 @@ class Ctx:
         elif ta is None:
             cause = "value-not-applied-at-serving-node"
         elif ts is not None and ta > ts:
-            cause = "applied-during-read"
+            # the serving node applied the value after the read's dirty check.  If, in addition, a WriteAck/CommitNotify
+            # for the key reached the node between that apply and the reply, a re-check of dirtiness after the read
+            # latency would not have helped either: both CRAQ defects are needed for this run (own narrow signature).
+            cl = [c for c in self.obs.cleans.get((served_by, key), ()) if ta < c[0] < op["ret"]]
+            cause = "applied-and-cleaned-during-read" if cl else "applied-during-read"
         else:
             cl = [c for c in self.obs.cleans.get((served_by, key), ()) if ta < c[0] and (ts is None or c[0] < ts)]
             cause = "cleaned-by-older-version" if cl else "not-marked-dirty"
@@ -728,6 +739,13 @@ def run(sc: dict) -> dict:
         c["probe.any_overtake"] = 1
     if judged_conv and not diverged and obs.overtaken_same_key:
         c["probe.converged_despite_overtake"] = 1
+    if scheme in ("pb", "chain") and outcome == "ok":
+        # a replica never applied a value the primary/head applied, i.e. it skipped an overtaken (stale) write
+        for k in ctx.writes_by_key:
+            seq_vals = set(stores[0].applied_values(k))
+            if any(seq_vals - set(st.applied_values(k)) for st in stores[1:]) and not ctx.faulty:
+                c["probe.stale_write_skipped"] = 1
+                break
     if judged_conv:
         c["judged.convergence"] = 1
     c["judged.acks"] = ctx.acks_judged
